@@ -1,0 +1,14 @@
+//go:build verif
+
+// Contracts for the output stream (machine-checked by /verif's VC generator;
+// comment-only, adds no code).
+package outputstream
+
+// Provisional (assumed) contract of Add as seen from the state machine: it
+// needs a non-empty batch, touches only the output stream's own state and
+// (no LevelDB I/O error) succeeds.
+//@ func OutputStream.Add
+//@   trusted
+//@   requires nonempty: os != nil && len(msgs) > 0
+//@   ensures noerror: result == nil
+//@   modifies OutputStream.lastseen[os], OutputStream.batch[os], maptype(map[uint64]*messageBatch)
